@@ -1080,6 +1080,22 @@ pub fn f_cancel(seed: u64) -> Plan {
         setup.push(Step::new(Op::Pull { sub: sub.clone(), max: 2, immediate: true }));
     }
     plan.phases.push(Phase { scripts: vec![setup], advance_us: rng.below(500_000), audit: false });
+    // consumers waiting on the subscription whose delete (or whose topic's delete) is abandoned: if
+    // the delete was applied they are released, if not they keep being served
+    if matches!(kind, 1 | 4) && rng.chance(400) {
+        let mut waiting = Vec::new();
+        for i in 0..rng.range(1, 2) {
+            let op = if rng.chance(500) {
+                Op::StreamOpen { slot: 50 + i as u32, sub: sub.clone(), max_msgs: 0, max_bytes: 0, policy: StreamPolicy::AckAll, window: 0, stall_after: 0, stall_us: 0 }
+            } else {
+                Op::PullBg { slot: 50 + i as u32, sub: sub.clone(), max: 10 }
+            };
+            waiting.push(vec![Step::after(rng.below(2_000), op)]);
+        }
+        // the backlog must be empty for them to park
+        waiting.push(vec![Step::new(Op::Pull { sub: sub.clone(), max: 100, immediate: true }), Step::new(Op::Ack { sub: sub.clone(), sel: sel_mine(Pick::LastResponse) })]);
+        plan.phases.push(Phase { scripts: waiting, advance_us: rng.below(200_000), audit: false });
+    }
     // the target request
     let target_op = match kind {
         0 => Op::CreateTopic { topic: fresh_topic.clone() },
